@@ -265,8 +265,9 @@ type sym struct {
 
 // Vals are the values given to valued options; Poss the positional tokens
 var Vals = []string{"v1", "v2", "x", "7", "a=b", "v-1", "a b", "é", "=", "x--", "=x", "0", "true", "+5", "50%", "a\tb", "日本語", "0x1F",
-	"a-value-that-is-longer-than-sixty-four-bytes-0123456789-0123456789-0123456789-0123456789", "08", "010", "9223372036854775808", "TRUE", "100%", "$HOME", "caf\xe9"}
-var Poss = []string{"p1", "p2", "q", "3", "-", "p1", "x=y", "é", "+1", "%s", "tab\there", "語",
+	"a-value-that-is-longer-than-sixty-four-bytes-0123456789-0123456789-0123456789-0123456789", "08", "010", "9223372036854775808", "TRUE", "100%", "$HOME", "caf\xe9", "\"v\"", "\"a b\"", "—",
+	"a-value-of-about-two-hundred-bytes-" + strings.Repeat("0123456789", 17)}
+var Poss = []string{"p1", "p2", "q", "3", "-", "p1", "x=y", "é", "+1", "%s", "tab\there", "語", "—", "\"q\"",
 	"a-positional-that-is-longer-than-sixty-four-bytes-0123456789-0123456789-0123456789-0123456789"}
 
 func derive(r *rand.Rand, p *Prog, n *Node, out *[]sym, budget *int, maxRep int) {
@@ -300,6 +301,14 @@ func derive(r *rand.Rand, p *Prog, n *Node, out *[]sym, budget *int, maxRep int)
 			opts = p.Opts
 		}
 		if len(opts) == 0 {
+			return
+		}
+		if r.Intn(8) == 0 {
+			// every option of the group once (many distinct options on one line)
+			for _, i := range r.Perm(len(opts)) {
+				*out = append(*out, sym{opt: opts[i], val: Vals[r.Intn(len(Vals))]})
+			}
+			*budget -= 3
 			return
 		}
 		k := 1 + r.Intn(3)
@@ -388,7 +397,7 @@ func spell(r *rand.Rand, p *Prog, syms []sym) []string {
 }
 
 // Junk are tokens inserted by mutation: undeclared and malformed options, odd strings
-var Junk = []string{"--", "-", "-z", "--zz", "-a", "-b", "-o", "--out", "p9", "-o=", "--out=", "-az", "--aa=false", "-ab=v", "-oa", "", " ", "---", "-=", "--=x", "-o=-x", "--out=--", "-o", "-x", "--aa=", "-a=", "-a=false", "-ba", "-abo", "-abox", "-p", "-p-1", "-q=", "--long", "--long=a,b", "é", "-é", "--a", "-aa", "--aa=true=x", "--zz=v", "-z=v", "--dry-run", "--dry", "-nN", "-e", "--e_1=", "-E7", "-1", "--out", "\t", "-\x00", "-5", "-0", "-.5", "-1e3", "-5", "-inf", "+x", "%d", "-%"}
+var Junk = []string{"--", "-", "-z", "--zz", "-a", "-b", "-o", "--out", "p9", "-o=", "--out=", "-az", "--aa=false", "-ab=v", "-oa", "", " ", "---", "-=", "--=x", "-o=-x", "--out=--", "-o", "-x", "--aa=", "-a=", "-a=false", "-ba", "-abo", "-abox", "-p", "-p-1", "-q=", "--long", "--long=a,b", "é", "-é", "--a", "-aa", "--aa=true=x", "--zz=v", "-z=v", "--dry-run", "--dry", "-nN", "-e", "--e_1=", "-E7", "-1", "--out", "\t", "-\x00", "-5", "-0", "-.5", "-1e3", "-5", "-inf", "+x", "%d", "-%", "—", "–"}
 
 // Mutate applies 0-2 random edits
 func Mutate(r *rand.Rand, argv []string) []string {
